@@ -10,7 +10,7 @@ TRUSTED_BASE = ["modelled, not verified: pandas Series.rolling('<P>s') window me
                 "non-NaN observations, .std() (sample, NaN below two observations), .apply(np.ptp, raw=True) (NaN as soon as "
                 "the window holds a NaN), np.std / np.ptp on masked arrays, the median-step conversion of min_period",
                 "standard deviation is never computed: std < thr is decided as 0 < thr /\\ variance < thr^2 (C12_std_via_variance)"]
-ASSUMPTIONS = ["increasing whole-second time axes; thresholds keep |variance - thr^2| >= 1e-6 (1 + variance) except for exactly "
+ASSUMPTIONS = ["increasing time axes (whole seconds, and regular / irregular axes in units of 0.25, 0.5, 1.5 s); thresholds keep |variance - thr^2| >= 1e-6 (1 + variance) except for exactly "
                "constant windows (the property excludes spreads within rounding distance of a threshold)"]
 
 
@@ -21,18 +21,6 @@ def sig_range_nan(f):
 
 
 SIGNATURES = {"attenuated_range_window_with_missing_value_is_unknown": sig_range_nan}
-
-
-def _whole_median_step(c):
-    """min_period is converted with the median time step floored to whole seconds: doubling all times doubles
-    that step only when the median itself is a whole number of seconds"""
-    if c["min_period"] is None or c["min_obs"] is not None:
-        return True
-    d = sorted(b - a for a, b in zip(c["ts"], c["ts"][1:]))
-    if not d:
-        return True
-    m = len(d)
-    return m % 2 == 1 or (d[m // 2 - 1] + d[m // 2]) % 2 == 0
 
 
 def run(ctx):
@@ -54,7 +42,7 @@ def run(ctx):
     # parameters, is compared with the model (r3), and the implementation must give both the same flags
     import copy
     pool = [c for c in dom if c["tp"] not in ("absent", None) and isinstance(c["tp"], int) and c["tp"] >= 1
-            and len(c["xs"]) >= 2 and not fa.range_nan_case(c) and _whole_median_step(c)]
+            and len(c["xs"]) >= 2 and not fa.range_nan_case(c)]
     rel_fail, scaled = [], []
     for c in (pool if len(pool) <= 300 else rng.sample(pool, 300)):
         b = copy.deepcopy(c)
